@@ -250,6 +250,180 @@ pub fn run(tier: &str, seed: u64) -> Report {
     report.count_n("lockfile-writes", locker.writes.len() as u64);
     report.count_n("loads-with-checksum", log.iter().filter(|c| c.checksum.is_some()).count() as u64);
   }
+  registry_part(&mut report, tier, &mut rng);
   batch.finish(&mut report, "C05");
   report
+}
+
+
+/// registry worlds: checksums of package manifests (lockfile) and package files (version manifest)
+pub fn registry_part(report: &mut Report, tier: &str, rng: &mut Rng) {
+  use crate::registry::*;
+  let n = if tier == "thorough" { 8000 } else { 1200 };
+  for i in 0..n {
+    let mut wr = rng.fork();
+    let cfg = RegCfg { faults: i % 2 == 1, ..Default::default() };
+    let mut w = gen_reg_world(&mut wr, &cfg);
+    if i % 3 == 0 {
+      w.has_locker = true;
+      if w.lock_manifests.is_empty() {
+        if let Some(p) = w.pkgs.first() {
+          w.lock_manifests.push((format!("{}@{}", p.name, p.versions[0].version), i % 6 != 3));
+        }
+      }
+    }
+    let loader = RegLoader::new(&w);
+    let Ok(b) = build_reg(&w, &loader) else {
+      report.fail("oracle", "registry-build-failed", "registry build failed".into(), w.describe());
+      continue;
+    };
+    registry_oracle(&w, &b, report);
+  }
+}
+
+pub fn registry_oracle(w: &crate::registry::RegWorld, b: &crate::registry::Built, report: &mut Report) {
+  use crate::registry::*;
+  let g = &b.graph;
+  let initial = initial_locker(w);
+  let replay = || w.describe();
+  let parse_file = |u: &str| -> Option<(String, String, String)> {
+    // https://jsr.io/@s/a/1.0.0/mod.ts -> (@s/a, 1.0.0, /mod.ts)
+    let rest = u.strip_prefix(REG)?;
+    let mut it = rest.splitn(4, '/');
+    let scope = it.next()?;
+    let name = it.next()?;
+    let ver = it.next()?;
+    let path = it.next()?;
+    Some((format!("{}/{}", scope, name), ver.to_string(), format!("/{}", path)))
+  };
+  for c in &b.log {
+    let u = c.specifier.as_str();
+    if !u.starts_with(REG) {
+      continue;
+    }
+    report.evaluations += 1;
+    if u.ends_with("/meta.json") {
+      if c.checksum.is_some() {
+        report.fail("oracle", "checksum-presented-for-package-metadata", format!("{} loaded with checksum {:?}", u, c.checksum), replay());
+      }
+      continue;
+    }
+    if let Some(x) = u.strip_prefix(REG).and_then(|r| r.strip_suffix("_meta.json")) {
+      // @s/a/1.0.0
+      let (name, ver) = x.rsplit_once('/').unwrap();
+      let nv = format!("{}@{}", name, ver);
+      let want = if c.cache_setting == "only" { None } else { initial.as_ref().and_then(|l| l.manifests.get(&nv).cloned()) };
+      // a checksum written earlier in this build (before a cache-busting restart) is known too
+      let written_earlier = c.cache_setting != "only"
+        && want.is_none()
+        && c.checksum.is_some()
+        && b.locker.as_ref().map(|l| l.calls.iter().any(|x| *x == format!("set-manifest {} {}", nv, c.checksum.clone().unwrap()))).unwrap_or(false);
+      if c.checksum != want && !written_earlier {
+        report.fail(
+          "oracle",
+          "package-manifest-load-does-not-present-lockfile-checksum",
+          format!("{} ({}) loaded with checksum {:?}, lockfile says {:?}", u, c.cache_setting, c.checksum, want),
+          replay(),
+        );
+      }
+      report.count(if want.is_some() { "manifest-load:locked" } else { "manifest-load:unlocked" });
+      continue;
+    }
+    let Some((name, ver, path)) = parse_file(u) else { continue };
+    let Some((_, rv)) = w.find(&name, &ver) else {
+      // a URL of a version the registry does not have: nothing to present
+      continue;
+    };
+    let Some(f) = rv.files.iter().find(|f| f.path == path) else {
+      // not in the manifest: the missing-checksum marker
+      if c.checksum.as_deref() != Some("package-manifest-missing-checksum") {
+        report.fail("oracle", "package-file-load-without-manifest-checksum", format!("{} (not in the manifest) loaded with checksum {:?}", u, c.checksum), replay());
+      }
+      continue;
+    };
+    let bytes = rv.file_bytes(f);
+    let want = match f.manifest {
+      ManifestEntry::Ok => Some(sha256_hex(&bytes)),
+      ManifestEntry::Bad => Some(sha256_hex(b"something else")),
+      ManifestEntry::Absent => Some("package-manifest-missing-checksum".to_string()),
+      ManifestEntry::NoPrefix => {
+        report.fail("oracle", "file-with-unsupported-manifest-checksum-loaded", format!("{} loaded although its manifest checksum is unsupported", u), replay());
+        continue;
+      }
+    };
+    report.count(&format!("file-load:{:?}:{}", f.manifest, c.cache_setting));
+    report.nontrivial.insert(format!("file-load/{:?}/{}/{}", f.manifest, c.cache_setting, c.in_dynamic_branch as u8));
+    if c.checksum != want {
+      report.fail(
+        "oracle",
+        "package-file-load-does-not-present-manifest-checksum",
+        format!("{} ({}) loaded with checksum {:?}; its version manifest says {:?}", u, c.cache_setting, c.checksum, want),
+        replay(),
+      );
+    }
+  }
+  // content that does not match the manifest is never admitted
+  for m in g.modules() {
+    let u = m.specifier().as_str();
+    let Some((name, ver, path)) = parse_file(u) else { continue };
+    let Some((_, rv)) = w.find(&name, &ver) else { continue };
+    let Some(f) = rv.files.iter().find(|f| f.path == path) else { continue };
+    let bytes = rv.file_bytes(f);
+    let text: Option<&str> = match m {
+      Module::Js(js) => Some(&js.source.text),
+      Module::Json(j) => Some(&j.source.text),
+      _ => None,
+    };
+    report.evaluations += 1;
+    if let Some(t) = text {
+      if f.manifest != ManifestEntry::Ok {
+        report.fail("oracle", "package-file-admitted-without-matching-manifest-checksum", format!("{} is a module although its manifest entry is {:?}", u, f.manifest), replay());
+      }
+      if t.as_bytes() != &bytes[..] {
+        report.fail("oracle", "package-file-content-differs-from-published-bytes", format!("{}: admitted text differs from the bytes whose checksum the manifest holds", u), replay());
+      }
+    }
+  }
+  // lockfile interface
+  if let (Some(l0), Some(l)) = (&initial, &b.locker) {
+    let mut seen: std::collections::BTreeSet<String> = std::collections::BTreeSet::new();
+    for call in &l.calls {
+      report.evaluations += 1;
+      let mut it = call.split(' ');
+      let kind = it.next().unwrap();
+      let key = it.next().unwrap().to_string();
+      let val = it.next().unwrap().to_string();
+      if kind == "set-manifest" {
+        if l0.manifests.contains_key(&key) {
+          report.fail("oracle", "lockfile-manifest-entry-overwritten", format!("{} already in the lockfile, set again to {}", key, val), replay());
+        }
+        let (name, ver) = key.rsplit_once('@').unwrap();
+        if let Some((p, rv)) = w.find(name, ver) {
+          let want = rv.lockfile_checksum.clone().unwrap_or_else(|| sha256_hex(&w.ver_meta_json(p, rv)));
+          if val != want {
+            report.fail("oracle", "wrong-manifest-checksum-recorded", format!("{} recorded as {} but the bytes used hash to {}", key, val, want), replay());
+          }
+        }
+        if !seen.insert(key.clone()) {
+          report.count("manifest-recorded-twice");
+        }
+        report.count("lock-write:manifest");
+      } else if kind == "set-remote" {
+        if key.starts_with(REG) {
+          report.fail("oracle", "registry-file-recorded-as-remote-module", format!("{} handed to set_remote_checksum", key), replay());
+        }
+        if l0.remote.contains_key(&key) {
+          report.fail("oracle", "lockfile-remote-entry-overwritten", format!("{} overwritten", key), replay());
+        }
+        report.count("lock-write:remote");
+      }
+    }
+    // every newly seen package manifest is recorded
+    for (nv, _) in g.packages.packages_with_deps() {
+      let key = nv.to_string();
+      if !l0.manifests.contains_key(&key) && !l.calls.iter().any(|c| c.starts_with(&format!("set-manifest {} ", key))) {
+        report.fail("oracle", "new-package-manifest-not-recorded", format!("{} is in the graph's package table but its manifest checksum was never handed to the lockfile", key), replay());
+      }
+    }
+  }
 }
